@@ -1,5 +1,5 @@
 (* C09 — LRU, FIFO and LFU evict exactly the entry their policy names. Statements over CacheModel's classic-policy shard (ClassicProofs.v); ghost stamps touch/born/reads are threaded by the wrapper gstep. Only `exact` + Print Assumptions. *)
-Require Import KV.Base KV.Gen.Consts KV.CacheModel KV.ClassicProofs.
+Require Import KV.Base KV.Gen.Consts KV.CacheModel KV.ClassicProofs KV.PtrModel KV.PtrProofs.
 Open Scope Z_scope.
 
 (* LRU: after any write the shared list is sorted by strictly decreasing last-touch stamp (write = touch) *)
@@ -10,7 +10,8 @@ Theorem c09_lru_order_write :
          CInv policyLRU s ->
          0 <= c ->
          OrdInv touch clk s ->
-         apply_classic e s k v ex c = (s', cm, d) -> OrdInv (upd touch k clk) (clk + 1) s'.
+         apply_classic e s k v ex c = (s', cm, d) ->
+         OrdInv (ClassicProofs.upd touch k clk) (clk + 1) s'.
 Proof. exact lru_apply_classic. Qed.
 
 (* LRU: a read hit moves the key to the most recent position; order invariant kept *)
@@ -19,7 +20,7 @@ Theorem c09_lru_order_read :
          CInv policyLRU s ->
          OrdInv touch clk s ->
          lookup s policyLRU k = Some it ->
-         OrdInv (upd touch k clk) (clk + 1) (get_hit_upd policyLRU s it k).
+         OrdInv (ClassicProofs.upd touch k clk) (clk + 1) (get_hit_upd policyLRU s it k).
 Proof. exact lru_get_hit. Qed.
 
 (* FIFO (every policy but LRU): the list is sorted by insertion stamp; an update of a resident key does not restamp it *)
@@ -34,7 +35,7 @@ Theorem c09_fifo_order_write :
          apply_classic e s k v ex c = (s', cm, d) ->
          OrdInv match lookup s pol k with
                 | Some _ => born
-                | None => upd born k clk
+                | None => ClassicProofs.upd born k clk
                 end (clk + 1) s'.
 Proof. exact fifo_apply_classic. Qed.
 
@@ -68,7 +69,8 @@ Theorem c09_lfu_reads_write :
          e_pol e = policyLFU ->
          CInv policyLFU s ->
          0 <= c ->
-         ReadsInv reads s -> apply_classic e s k v ex c = (s', cm, d) -> ReadsInv (upd reads k 0) s'.
+         ReadsInv reads s ->
+         apply_classic e s k v ex c = (s', cm, d) -> ReadsInv (ClassicProofs.upd reads k 0) s'.
 Proof. exact lfu_apply_classic. Qed.
 
 (* LFU: a read hit increments exactly that key's frequency *)
@@ -77,7 +79,7 @@ Theorem c09_lfu_reads_read :
          CInv policyLFU s ->
          ReadsInv reads s ->
          lookup s policyLFU k = Some it ->
-         ReadsInv (upd reads k (reads k + 1)) (get_hit_upd policyLFU s it k).
+         ReadsInv (ClassicProofs.upd reads k (reads k + 1)) (get_hit_upd policyLFU s it k).
 Proof. exact lfu_get_hit. Qed.
 
 (* LFU: whichever member of the minimum bucket the implementation picks (oracle), its read count is minimal among residents; a pick outside the minimum bucket is refused (serr) *)
@@ -185,11 +187,74 @@ Proof. exact fifo_example. Qed.
 Theorem c09_lfu_example :
   Good policyLFU 1 (ex_run policyLFU [(evLfu, 3)]) /\
          map key (lst (ex_run policyLFU [(evLfu, 3)])) = [4; 2; 1] /\
-         lfu (ex_run policyLFU [(evLfu, 3)]) = [(1, [4; 2]); (2, [1])] /\
+         CacheModel.lfu (ex_run policyLFU [(evLfu, 3)]) = [(1, [4; 2]); (2, [1])] /\
          glog (ex_run policyLFU [(evLfu, 3)]) =
          [(0, 1, 10); (0, 2, 20); (0, 3, 30); (10, 3, 30); (0, 4, 40)] /\
          size (ex_run policyLFU [(evLfu, 3)]) = 3 /\ serr (ex_run policyLFU [(evLfu, 3)]) = 0.
 Proof. exact lfu_example. Qed.
+
+(* pointer level: the LRU/FIFO evictor's tail.prev is the last element of the represented list (0 when empty) *)
+Theorem c09_ptr_lru_victim :
+  forall (s : pstate) (l : list Z),
+         dll (hp s) lruHead lruTail l -> lru_victim s = match rev l with
+                                                        | [] => 0
+                                                        | x :: _ => x
+                                                        end.
+Proof. exact lru_victim_spec. Qed.
+
+(* pointer level: moveToLRUHead on the real prev/next surgery yields it :: remz l it (doubly linked, both directions) *)
+Theorem c09_ptr_lru_move :
+  forall (s : pstate) (it : Z) (l : list Z),
+         dll (hp s) lruHead lruTail l ->
+         In it l ->
+         let s' := lru_move s it in
+         dll (hp s') lruHead lruTail (it :: remz l it) /\
+         perr s' = perr s /\
+         (forall x : Z,
+          pq (hp s' x) = pq (hp s x) /\
+          pown (hp s' x) = pown (hp s x) /\
+          pvis (hp s' x) = pvis (hp s x) /\ preuse (hp s' x) = preuse (hp s x)) /\
+         prob s' = prob s /\ mainq s' = mainq s /\ hand s' = hand s /\ maincap s' = maincap s.
+Proof. exact lru_move_dll. Qed.
+
+(* pointer level: every protocol-respecting sequence of addToLRUHead / removeFromLRU / moveToLRUHead from the initial heap keeps the doubly linked representation of the abstract list; no nil dereference *)
+Theorem c09_ptr_lru_sequence :
+  forall (owner mcap : Z) (ops : list lru_op),
+         lru_ops_ok [] ops = true ->
+         let s := fold_left lru_p_step ops (pinit owner mcap) in
+         let l := fold_left lru_abs_step ops [] in
+         dll (hp s) lruHead lruTail l /\
+         perr s = false /\ lru_victim s = match rev l with
+                                          | [] => 0
+                                          | x :: _ => x
+                                          end.
+Proof. exact lru_sequence. Qed.
+
+(* pointer level: the LFU frequency ring (buckets, freqMap, itemFreq) refines CacheModel's bucket list under add / increment / remove / removeLFU for every operation sequence *)
+Theorem c09_ptr_lfu_ring :
+  forall ops : list LfuRing.lfu_op,
+         LfuRing.lfu_ops_ok [] ops = true ->
+         LfuRing.LInv (fold_left LfuRing.lfu_p_step ops lfu_init)
+           (fold_left LfuRing.lfu_abs_step ops []).
+Proof. exact LfuRing.lfu_ring_refines. Qed.
+
+(* pointer level: removeLFU's victim lies in head.next's bucket, which is the minimum-frequency bucket *)
+Theorem c09_ptr_lfu_victim :
+  forall (l : lfu) (b : list (Z * list Z)) (pick : Z),
+         LfuRing.LInv l b ->
+         b <> [] ->
+         lerr (fst (lfu_remove_lfu_p l pick)) = false ->
+         snd (lfu_remove_lfu_p l pick) = pick /\
+         In pick (lfu_min_bucket b) /\
+         (forall it : Z, In it (LfuRing.bitems b) -> lfu_freq b pick <= lfu_freq b it).
+Proof. exact LfuRing.lfu_remove_lfu_victim. Qed.
+
+(* the first bucket of a well-formed ring holds the minimum frequency *)
+Theorem c09_ptr_lfu_min :
+  forall (b : list (Z * list Z)) (k it : Z),
+         LfuRing.bwf b ->
+         In k (lfu_min_bucket b) -> In it (LfuRing.bitems b) -> lfu_freq b k <= lfu_freq b it.
+Proof. exact LfuRing.min_bucket_is_min. Qed.
 
 Print Assumptions c09_lru_order_write.
 Print Assumptions c09_lru_order_read.
@@ -208,3 +273,9 @@ Print Assumptions c09_cache_set_is_wrapper_step.
 Print Assumptions c09_lru_example.
 Print Assumptions c09_fifo_example.
 Print Assumptions c09_lfu_example.
+Print Assumptions c09_ptr_lru_victim.
+Print Assumptions c09_ptr_lru_move.
+Print Assumptions c09_ptr_lru_sequence.
+Print Assumptions c09_ptr_lfu_ring.
+Print Assumptions c09_ptr_lfu_victim.
+Print Assumptions c09_ptr_lfu_min.
